@@ -14,10 +14,10 @@ import (
 
 // TInst is the instantiation chosen for one type parameter in the law tests.
 type TInst struct {
-	Type string               // Go type, e.g. "int"
-	Val  func(n int) string   // typed value expression tagged with n
-	JVal func(n int) string   // JSON-faithful typed value expression
-	Omit string               // "yes" / "no" / "ambig": omitempty expectation of a field of this type
+	Type string             // Go type, e.g. "int"
+	Val  func(n int) string // typed value expression tagged with n
+	JVal func(n int) string // JSON-faithful typed value expression
+	Omit string             // "yes" / "no" / "ambig": omitempty expectation of a field of this type
 }
 
 var (
@@ -56,11 +56,11 @@ type Kind struct {
 	EmbName string
 	NoApply bool // embedded struct without fields: gombok leaves it out of tuples/Apply/Mutable conversion
 	// JSON part (C15)
-	JVals    func(i int, e Env) [2]string // faithful values; nil = same as Vals
-	JFail    bool                        // json.Marshal fails on this type (func, chan)
-	Omit     string                      // "yes" (unnamed nilable / Option), "no", "ambig", "T" (type parameter: take the instantiation's)
-	JEmpty   [2]bool                     // which of the two JSON values is "empty" in the omitempty sense
-	JWrong   string                      // a JSON value of the wrong type for this field
+	JVals  func(i int, e Env) [2]string // faithful values; nil = same as Vals
+	JFail  bool                         // json.Marshal fails on this type (func, chan)
+	Omit   string                       // "yes" (unnamed nilable / Option), "no", "ambig", "T" (type parameter: take the instantiation's)
+	JEmpty [2]bool                      // which of the two JSON values is "empty" in the omitempty sense
+	JWrong string                       // a JSON value of the wrong type for this field
 }
 
 func n1(i int) int { return 10*i + 1 }
